@@ -326,12 +326,23 @@ struct SConf {
     bind: u128,
     /// finite reset times in (0, FAR_MS) are crossed in real time
     sensitive: bool,
+    /// further hosts ("h1.test", "h2.test", ...), each with its own `LimitManager::new`
+    extra: Vec<(usize, usize, f64)>,
+}
+
+/// the host a request names: 0 = the first host, k = the k-th further host, 99 = a name no host has
+fn host_name(target: u8) -> String {
+    match target {
+        0 => HOSTNAME.to_string(),
+        99 => "nobody.test".to_string(),
+        k => format!("h{k}.test"),
+    }
 }
 
 /// What the history consists of.
 enum Ev {
-    /// address index, wait before (ms), requests, repetitions
-    Conn(u8, u64, u64, u64),
+    /// address index, wait before (ms), the host each request names, repetitions
+    Conn(u8, u64, Vec<u8>, u64),
     /// the next `n` calls of accept() on the listener fail (EMFILE), then the next connection is accepted
     Errs(u64),
     /// `shutdown()` of the server's shutdown manager; waits until the listeners are closed
@@ -469,6 +480,14 @@ async fn serve_once(sc: &SConf, evs: &[Ev], deadline: Duration) -> Attempt {
         }
     };
     let mut builder = HostCollection::builder().insert(host);
+    for (k, c) in sc.extra.iter().enumerate() {
+        let mut ext = Extensions::empty();
+        ext.add_prepare_single("/", kvarn::prepare!(_, _, _, _, { FatResponse::no_cache(Response::new(Bytes::from_static(b"ok"))) }));
+        let mut h = Host::unsecure(host_name(k as u8 + 1), "/nonexistent/kvh-c12", ext, host::Options::default());
+        h.disable_fs_cache().disable_response_cache();
+        h.limiter = LimitManager::new(c.0, c.1, c.2);
+        builder = builder.insert(h);
+    }
     if let Some(pre) = pre {
         builder = builder.set_pre_host_limiter(pre);
     }
@@ -489,8 +508,8 @@ async fn serve_once(sc: &SConf, evs: &[Ev], deadline: Duration) -> Attempt {
     let mut nominal = Duration::ZERO;
     let mut pending_errs: Option<u64> = None;
     'evs: for ev in evs {
-        let (a, dt, nreq, times) = match ev {
-            Ev::Conn(a, dt, nreq, times) => (*a, *dt, *nreq, *times),
+        let (a, dt, targets, times) = match ev {
+            Ev::Conn(a, dt, targets, times) => (*a, *dt, targets, *times),
             Ev::Errs(n) => {
                 pending_errs = Some(pending_errs.unwrap_or(0) + *n);
                 continue;
@@ -610,8 +629,8 @@ async fn serve_once(sc: &SConf, evs: &[Ev], deadline: Duration) -> Attempt {
             first = false;
             let mut statuses = Vec::new();
             let mut cut = false;
-            for _ in 0..nreq {
-                match exchange(&mut stream, HOSTNAME, deadline).await {
+            for target in targets.iter() {
+                match exchange(&mut stream, &host_name(*target), deadline).await {
                     Answer::Status(s) => statuses.push(X::n(s)),
                     Answer::Cut => {
                         cut = true;
@@ -693,12 +712,12 @@ static CONFIRMED_STALLS: AtomicU32 = AtomicU32::new(0);
 ///          (L (N 201))         [with_events] shutdown
 /// output: (L (L result ...) alive), result = (L (N 3)) refused | (L (N 0) (L status ...) cut) |
 ///         (L (N 4) (L status ...)) no reaction (the history ends there); alive: 1 | 0 | 4 (no reaction)
-pub fn server(x: &X, with_events: bool) -> X {
+pub fn server(x: &X, with_events: bool, with_hosts: bool) -> X {
     let l = match x.as_l() { Some(l) if l.len() == 3 => l, _ => return X::bad() };
     if l[0].as_bool().is_none() {
         return X::bad();
     }
-    let s = match l[1].as_l() { Some(s) if s.len() == 4 => s, _ => return X::bad() };
+    let s = match l[1].as_l() { Some(s) if s.len() == if with_hosts { 5 } else { 4 } => s, _ => return X::bad() };
     let path = match s[0].as_n() { Some(p) if p <= 1 => p, _ => return X::bad() };
     let (max, ce, reset, finite) = match config(&s[1]) { Some(c) => c, None => return X::bad() };
     let mut sensitive = is_sensitive(finite);
@@ -714,14 +733,43 @@ pub fn server(x: &X, with_events: bool) -> X {
         _ => return X::bad(),
     };
     let bind = match s[3].as_n() { Some(b) if b <= 2 => b, _ => return X::bad() };
-    let sc = SConf { path, host: (max, ce, reset), pre, bind, sensitive };
+    let mut extra = Vec::new();
+    if with_hosts {
+        for c in match s[4].as_l() { Some(c) => c, None => return X::bad() } {
+            match config(c) {
+                Some((m, e, r, f)) => {
+                    sensitive |= is_sensitive(f);
+                    extra.push((m, e, r));
+                }
+                None => return X::bad(),
+            }
+        }
+        if extra.len() > 90 {
+            return X::L(vec![X::N(96)]);
+        }
+    }
+    let sc = SConf { path, host: (max, ce, reset), pre, bind, sensitive, extra };
     let mut evs = Vec::new();
     for e in match l[2].as_l() { Some(e) => e, None => return X::bad() } {
         match e.as_l() {
             // a connection without a request cannot tell "dropped" from "waiting": not expressible
-            Some([X::N(a), X::N(dt), X::N(n)]) if *a < 100 && *n >= 1 && *n < 1000 => evs.push(Ev::Conn(*a as u8, *dt as u64, *n as u64, 1)),
-            Some([X::N(a), X::N(dt), X::N(n), X::N(k)]) if *a < 100 && *n >= 1 && *n < 1000 && *k < 5000 => {
-                evs.push(Ev::Conn(*a as u8, *dt as u64, *n as u64, *k as u64))
+            Some([X::N(a), X::N(dt), X::N(n)]) if !with_hosts && *a < 100 && *n >= 1 && *n < 1000 => {
+                evs.push(Ev::Conn(*a as u8, *dt as u64, vec![0; *n as usize], 1))
+            }
+            Some([X::N(a), X::N(dt), X::N(n), X::N(k)]) if !with_hosts && *a < 100 && *n >= 1 && *n < 1000 && *k < 5000 => {
+                evs.push(Ev::Conn(*a as u8, *dt as u64, vec![0; *n as usize], *k as u64))
+            }
+            Some([X::N(a), X::N(dt), X::L(tgs)]) if with_hosts && *a < 100 && !tgs.is_empty() && tgs.len() < 1000 => {
+                let mut targets = Vec::new();
+                for t in tgs {
+                    match t {
+                        // a name of a host that is not there is the unknown host
+                        X::N(t) if *t == 99 || (*t as usize) <= sc.extra.len() => targets.push(*t as u8),
+                        X::N(t) if *t < 90 => targets.push(99),
+                        _ => return X::L(vec![X::N(96)]),
+                    }
+                }
+                evs.push(Ev::Conn(*a as u8, *dt as u64, targets, 1))
             }
             Some([X::N(200), X::N(n)]) if with_events && *n <= 100_000 => evs.push(Ev::Errs(*n as u64)),
             Some([X::N(201)]) if with_events => evs.push(Ev::Shutdown),
@@ -765,8 +813,9 @@ pub fn dispatch(comp: &str, x: &X) -> Option<X> {
     Some(match comp {
         "limiter.register" | "limiter.concseq" => register(x),
         "limiter.ops" => ops(x),
-        "limiter.server" => server(x, false),
-        "limiter.server_ev" => server(x, true),
+        "limiter.server" => server(x, false, false),
+        "limiter.server_ev" => server(x, true, false),
+        "limiter.hosts" => server(x, true, true),
         _ => return None,
     })
 }
